@@ -13,7 +13,7 @@ def arena_corpus(tier, seed, gens, profiles=("dbg", "rel")):
     for g in gens:
         for prof in profiles:
             n = {"quick": 2, "thorough": 8}[tier]
-            jobs += tj("arena_driver", g, tier, prof, seed, n, ["ArenaMonitor"])
+            jobs += tj("arena_driver", g, tier, prof, seed, n, ["ArenaMonitor", "ArenaTrace"])
     return jobs
 
 ARENA_GENS = {
